@@ -305,9 +305,11 @@ Space ==
                  grid : {"uni", "geo", "fun"}, hz : {"num", "fT", "fb"},
                  seed : IF Thorough THEN {Seed, Seed + 1} ELSE {Seed}, cons : {<<>>, <<"kR", "k7">>, <<"kS", "k1">>}, obj : {<<>>, <<"o6", "o1">>}] : Wellformed(s)}
     [] Family = "C04" ->
-         {s \in [rhs : {"R2", "R3"}, meth : {"MS", "SS"}, intg : {"rk"}, N : 1..MaxN, M : 1..MaxM,
+         {s \in [rhs : {"R2", "R3"}, meth : {"MS", "SS", "DC"}, intg : {"rk", "radau2"}, N : 1..MaxN, M : 1..MaxM,
                  grid : {"uni", "fun"}, hz : {"num", "fT"},
-                 seed : {Seed}, cons : ConSets, obj : {<<>>}] : Wellformed(s)}
+                 seed : {Seed}, cons : ConSets \cup {<<"k8", "kR">>, <<"k7", "kS", "k2">>}, obj : {<<>>}] :
+              /\ Wellformed(s) /\ (s.meth = "DC" <=> s.intg = "radau2")
+              /\ (s.meth # "DC" => \A i \in 1..Len(s.cons) : s.cons[i] \notin {"kR", "kS"})}
     [] Family = "C05" ->
          {s \in [rhs : {"R1", "R3", "R4", "R7"}, meth : {"MS", "SS"}, intg : {"rk", "expl_euler"}, N : 1..MaxN, M : 1..MaxM,
                  grid : {"uni", "geo"}, hz : {"num", "fb"},
